@@ -1078,15 +1078,15 @@ def content_files(tier, seed):
     for j in range(60 if tier == "thorough" else 12):
         data = b"".join(rnd.choice(CONTENT_ALPHABET) for _ in range(rnd.randint(0, 40)))
         out.append(("%s/r%02d.log" % (dirs[j % 3], j), "random", data))
-    out.append(("/other.txt", "not-matched", b"not\rmatched\n"))
-    out.append(("/logs/deep/other.txt", "not-matched", b"\xe9\n"))
+    out.append(("/other.txt", "other-extension", b"not\rmatched\n"))
+    out.append(("/logs/deep/other.txt", "other-extension", b"\xe9\n"))
     return out
 
 
 def content_patterns(files):
     pats = ["*.log", "**/*.log", "logs/*.log", "logs/deep/*.log", "*/*/*.log", "c0?.log", "**/c1?.log", "logs/*", "*.txt",
             "**/r*.log", "nothing*"]
-    pats += [p.lstrip("/") for p, cls, _d in files if cls != "not-matched"]      # one pattern per file: pins the class
+    pats += [p.lstrip("/") for p, cls, _d in files if cls != "other-extension"]      # one pattern per file: pins the class
     return pats
 
 
